@@ -129,6 +129,8 @@ def _producer(a: Any, page: str, anc: List[Any], indexpage: bool = False) -> str
     """Which link producer of the templates wrote this <a> / <link> / <script> / <img> ?"""
     if a.name != "a":
         return "static"
+    if "rst-toc-backref" in _classes(a):               # docutils: section title -> its entry in the table of contents
+        return "tocBackref"
     names = [(t.name, _classes(t), t.get("id")) for t in anc]
 
     def inside(name: Optional[str] = None, cls: Optional[str] = None, id_: Optional[str] = None) -> bool:
